@@ -141,10 +141,10 @@ def c(ctx):
     ctx.ob("request() tests whether the context has been shut down", bool(ts), fi, fi.node, construct="def request")
     for t in ts:
         test = [p for p, _ in cfg.pred[t]][0]
-        effects_before = [n for n in cfg.stmt_nodes() if n.id != test and cfg.dominates(n.id, test) and n.kind != "test" and not (isinstance(n.ast, ast.Expr) and isinstance(n.ast.value, ast.Constant))]
+        effects_before = [n for n in cfg.stmt_nodes() if n.id != test and cfg.dominates(n.id, test) and n.kind != "test" and not (isinstance(n.ast, ast.Expr) and isinstance(n.ast.value, ast.Constant)) and not _only_logs(n.ast)]
         ctx.ob("the shutdown test precedes every other statement of request()", not effects_before, fi, effects_before[0].ast if effects_before else cfg.nodes[test].ast)
         for n in cfg.stmt_nodes():
-            if n.id != test and n.kind != "test" and not cfg.dominates(test, n.id) and cfg.is_reachable(n.id) and not (isinstance(n.ast, ast.Expr) and isinstance(n.ast.value, ast.Constant)):
+            if n.id != test and n.kind != "test" and not cfg.dominates(test, n.id) and cfg.is_reachable(n.id) and not (isinstance(n.ast, ast.Expr) and isinstance(n.ast.value, ast.Constant)) and not _only_logs(n.ast):
                 ctx.ob("no statement of request() bypasses the shutdown test", False, fi, n.ast)
         r = cfg.reach({t})
         adds = []
